@@ -59,6 +59,16 @@ fn check(s: &Sharing, case: &mut Case) -> Result<(), Fail> {
         let ow = reparse(&v[k.min(v.len())..], "c03:compressed-unparseable@origin", "compressed output written at a non-zero stream offset")?;
         ensure!(ow == p, "c03:compressed-mismatch@origin", "compressed output written at stream offset {} parses differently: {}", k, diff(&p, &ow));
     }
+    // and on a writer that accepts only a few bytes per call (any std::io::Write may do that)
+    if s.filler_at % 4 == 2 && u.len() < 8192 {
+        case.class("short-write-writer");
+        let chunk = 1 + (s.filler_at as usize % 3);
+        let mut w = super::c04::ChunkedWriter { inner: std::io::Cursor::new(Vec::new()), chunk };
+        lib("write_compressed_to", || pk.write_compressed_to(&mut w))?.map_err(|e| Fail::new("c03:compressed-failed", format!("write_compressed_to on a writer accepting {} bytes per call: {:?}", chunk, e)))?;
+        let v = w.inner.into_inner();
+        let ow = reparse(&v, "c03:compressed-unparseable@short-writes", "compressed output written through a short-write writer")?;
+        ensure!(ow == p, "c03:compressed-mismatch@short-writes", "compressed output written through a writer accepting {} bytes per call parses differently: {}", chunk, diff(&p, &ow));
+    }
     Ok(())
 }
 
@@ -69,7 +79,7 @@ fn strategy(t: Tier) -> BoxedStrategy<Sharing> {
 pub fn def() -> CheckDef {
     CheckDef {
         id: "C03",
-        rule: "proptest: packets as in C02 whose owner, question and RDATA names come from suffix trees over a tiny label pool (constant sharing; pairs differing only in a leading or trailing label), with filler records that move later names just below / at / above offset 16383 and up to 65535 bytes; oracle observe(parse(compressed)) == observe(parse(plain)) == model and len(compressed) <= len(plain). Non-trivial = the compressed output is strictly shorter (at least one pointer emitted); classes report messages over 16 KiB and names first written above 16383 that repeat",
+        rule: "proptest: packets as in C02 whose owner, question and RDATA names come from suffix trees over a tiny label pool (constant sharing; pairs differing only in a leading or trailing label), with filler records that move later names just below / at / above offset 16383 and up to 65535 bytes; oracle observe(parse(compressed)) == observe(parse(plain)) == model and len(compressed) <= len(plain); a quarter of the cases also write the compressed form at a non-zero stream offset, another quarter through a writer accepting 1..3 bytes per call. Non-trivial = the compressed output is strictly shorter (at least one pointer emitted); classes report messages over 16 KiB and names first written above 16383 that repeat",
         assumptions: vec!["same exclusions as C02"],
         sections: vec![Box::new(PropSection { name: "transparent", rule: "compressed == plain == model", strategy, cases: (200_000, 1_500_000), check })],
     }
